@@ -163,3 +163,17 @@ prop("C08", "After an unclean stop the disk cache serves only bytes it truly hol
        "quick": {"checks": 48, "shards": 16, "timeout": 900},
        "thorough": {"checks": 1600, "shards": 16, "timeout": 7200}}],
      CACHE_ASSUME + ["crash model: files are written in order; a crash leaves a prefix of the newest file and complete older files (no reordering of writes across files)"])
+
+prop("C15", "At most one instance holds a source's leader lease at any time", "exploration",
+     "a case = 2-5 contenders (each a real Election from cluster.NewRedisCluster(...).NewElection on its own connection to the double) x lease ttl 3-30 s x a sequence of 5-40 actions: campaign, renew, resign, leader query, advance the double's VIRTUAL clock by 0..2 ttl (incl. ttl-1 ms, ttl, ttl+1 ms), lose the next campaign/renew/resign call of a contender (executed-but-reply-dropped or never executed; the instance then reconnects), stop renewing. "
+     "The double executes the tool's own Lua scripts through ref/minilua against its keyspace and clock. non-trivial = distinct case in which leadership was handed over after a lease period elapsed AND a non-holder resigned. "
+     "Oracle after EVERY step: reference lease model {holder, expiresAt}; (1) at most one contender believes it holds an unexpired lease (belief = last successful campaign/renew + ttl; resigning ends it); (2) campaign/renew succeeds iff the model says the caller is the holder or no unexpired lease exists; a failed renew is ErrNotLeader; "
+     "(3) the lease key on the double (value and expiry) equals the model exactly (so resign deletes only one's own lease, and a holder that stops renewing is gone one ttl after its last success); (4) Leader() names the model's holder; a lost call never reports success. "
+     "Second unit: every cluster section accepted by config.InitSyncerConfig (generated leaseTimeout/leaseRenewInterval incl. boundary and absurd values) has renew interval <= timeout/3 and timeout >= 1 s.",
+     [{"pkg": "c15", "test": "TestC15",
+       "quick": {"checks": 2400, "shards": 4, "timeout": 600},
+       "thorough": {"checks": 120000, "shards": 16, "timeout": 5400}},
+      {"pkg": "c15", "test": "TestC15Config",
+       "quick": {"checks": 3000, "shards": 1, "timeout": 300},
+       "thorough": {"checks": 100000, "shards": 2, "timeout": 1800}}],
+     BASE_ASSUME + ["fake/ double with a virtual clock (SET EX / EXPIRE / GET / DEL semantics and lazy expiry)", "ref/minilua: interpreter for the Lua subset of the two lease scripts; a script outside the subset => inconclusive (exit 2)"])
